@@ -2,7 +2,6 @@ package main
 
 import (
 	"context"
-	"errors"
 	"fmt"
 	"io"
 	"strings"
@@ -18,7 +17,9 @@ var kinds = []string{"I", "S", "C", "T", "IS", "ST", "ISCT"}
 // hasStreamOut: the node has a native function that produces a stream (so it has an output chunking).
 func hasStreamOut(kind string) bool { return strings.ContainsAny(kind, "ST") }
 
-var errInjected = errors.New("c04-injected-failure")
+// the injected failure WRAPS io.EOF (as read errors of real sources do): an error is an error, whatever it wraps;
+// only the bare io.EOF ends a stream
+var errInjected = fmt.Errorf("c04-injected-failure (%w)", io.EOF)
 
 // world is the per-case runtime state shared by node bodies.
 type world struct {
